@@ -1530,3 +1530,163 @@ impl<'a> Checker<'a> {
         }
     }
 }
+
+// ------------------------------------------------------------------ C12: conversions and knob probes
+
+impl<'a> Checker<'a> {
+    /// utf8byte / utf8byte_to_charpos are exact inverses that agree with naive counting, and
+    /// refuse positions beyond the text and byte offsets inside a character
+    pub fn check_conversions(&mut self) {
+        let store = self.store;
+        let m = self.model;
+        for r in m.resources.iter().filter(|r| r.live) {
+            if self.full() {
+                return;
+            }
+            let Some(res) = store.resource(rh(r.handle)) else { continue };
+            let ctx = format!("resource {}", r.id);
+            let text: String = r.text.iter().collect();
+            let charbyte: Vec<usize> = text.char_indices().map(|(b, _)| b).chain(std::iter::once(text.len())).collect();
+            let len = r.text.len();
+            for p in 0..=(len + 2) {
+                let got = self.guarded("C12", "resource.utf8byte", &ctx, || res.utf8byte(p).ok());
+                let Some(got) = got else { break };
+                let exp = if p <= len { Some(charbyte[p]) } else { None };
+                if got != exp {
+                    self.push("C12", "mismatch", "resource.utf8byte", format!("{}: utf8byte({}) expected {:?} got {:?}", ctx, p, exp, got));
+                    break;
+                }
+            }
+            for b in 0..=(text.len() + 2) {
+                let got = self.guarded("C12", "resource.utf8byte_to_charpos", &ctx, || res.utf8byte_to_charpos(b).ok());
+                let Some(got) = got else { break };
+                let exp = charbyte.iter().position(|x| *x == b);
+                if got != exp {
+                    self.push("C12", "mismatch", "resource.utf8byte_to_charpos", format!("{}: utf8byte_to_charpos({}) expected {:?} got {:?}", ctx, b, exp, got));
+                    break;
+                }
+            }
+            // sub-selections: relative positions
+            let mut ranges: Vec<(usize, usize)> = r.sels.iter().take(4).cloned().collect();
+            if len >= 2 {
+                ranges.push((1, len));
+                ranges.push((len / 2, len));
+                ranges.push((1, len - 1));
+            }
+            for (sb, se) in ranges {
+                if self.full() {
+                    return;
+                }
+                let ctx2 = format!("{} selection {}..{}", ctx, sb, se);
+                let Ok(Ok(sel)) = catch(|| res.textselection(&Offset::simple(sb, se))) else { continue };
+                let seltext: String = r.text[sb..se].iter().collect();
+                let rel: Vec<usize> = seltext.char_indices().map(|(b, _)| b).chain(std::iter::once(seltext.len())).collect();
+                if let Some(t) = self.guarded("C12", "selection.text", &ctx2, || sel.text().to_string()) {
+                    if t != seltext {
+                        self.push("C12", "mismatch", "selection.text", format!("{}: expected {:?} got {:?}", ctx2, seltext, t));
+                    }
+                }
+                for p in 0..=(se - sb) {
+                    let got = self.guarded("C12", "selection.utf8byte", &ctx2, || sel.utf8byte(p).ok());
+                    let Some(got) = got else { break };
+                    if got != Some(rel[p]) {
+                        self.push("C12", "mismatch", "selection.utf8byte", format!("{}: utf8byte({}) expected {:?} got {:?}", ctx2, p, Some(rel[p]), got));
+                        break;
+                    }
+                }
+                for b in 0..=seltext.len() {
+                    let got = self.guarded("C12", "selection.utf8byte_to_charpos", &ctx2, || sel.utf8byte_to_charpos(b).ok());
+                    let Some(got) = got else { break };
+                    let exp = rel.iter().position(|x| *x == b);
+                    if got != exp {
+                        self.push("C12", "mismatch", "selection.utf8byte_to_charpos", format!("{}: utf8byte_to_charpos({}) expected {:?} got {:?}", ctx2, b, exp, got));
+                        break;
+                    }
+                }
+                // text by offset inside the selection
+                for (ob, oe) in [(0usize, se - sb), (0, 0), ((se - sb) / 2, se - sb)] {
+                    let off = Offset::simple(ob, oe);
+                    let got = self.guarded("C12", "selection.text_by_offset", &ctx2, || sel.text_by_offset(&off).ok().map(|s| s.to_string()));
+                    let Some(got) = got else { break };
+                    let exp: String = r.text[sb + ob..sb + oe].iter().collect();
+                    if got.as_deref() != Some(exp.as_str()) {
+                        self.push("C12", "mismatch", "selection.text_by_offset", format!("{}: offset {}..{} expected {:?} got {:?}", ctx2, ob, oe, exp, got));
+                        break;
+                    }
+                }
+            }
+        }
+    }
+}
+
+/// Answers of calls whose absolute correctness is another property's business (C07 text search,
+/// segmentation) or that walk knob-dependent structures: recorded per step and compared *across
+/// replicas* that differ only in performance knobs.
+pub fn probe_answers(store: &AnnotationStore, m: &Model) -> Vec<(String, String)> {
+    let mut out: Vec<(String, String)> = Vec::new();
+    let mut add = |k: String, v: Result<String, String>| {
+        out.push((
+            k,
+            match v {
+                Ok(s) => s,
+                Err(p) => format!("PANIC {}", crate::exec::normalise_panic(&p)),
+            },
+        ))
+    };
+    for r in m.resources.iter().filter(|r| r.live) {
+        let Some(res) = store.resource(rh(r.handle)) else { continue };
+        let id = r.id.clone();
+        let needles: Vec<String> = {
+            let mut v: Vec<String> = Vec::new();
+            if let Some(c) = r.text.first() {
+                v.push(c.to_string());
+            }
+            if r.text.len() >= 2 {
+                v.push(r.text[r.text.len() / 2..(r.text.len() / 2 + 2).min(r.text.len())].iter().collect());
+            }
+            v.push(" ".to_string());
+            v
+        };
+        for n in needles.iter() {
+            add(format!("find_text:{}:{:?}", id, n), catch(|| res.find_text(n).map(|t| format!("{}-{};", t.begin(), t.end())).collect::<String>()));
+            add(format!("find_text_nocase:{}:{:?}", id, n), catch(|| res.find_text_nocase(&n.to_lowercase()).map(|t| format!("{}-{};", t.begin(), t.end())).collect::<String>()));
+            add(format!("split_text:{}:{:?}", id, n), catch(|| res.split_text(n).map(|t| format!("{}-{};", t.begin(), t.end())).collect::<String>()));
+        }
+        add(format!("trim_text:{}", id), catch(|| res.trim_text(&[' ', '\n', '\t']).map(|t| format!("{}-{}", t.begin(), t.end())).unwrap_or_else(|e| format!("ERR {}", e))));
+        add(
+            format!("regex:{}", id),
+            catch(|| {
+                let re = [Regex::new(r"\w+").unwrap()];
+                let out = match res.find_text_regex(&re, None, true) {
+                    Ok(iter) => iter.map(|m| m.textselections().iter().map(|t| format!("{}-{};", t.begin(), t.end())).collect::<String>()).collect::<String>(),
+                    Err(e) => format!("ERR {}", e),
+                };
+                out
+            }),
+        );
+        add(format!("segmentation:{}", id), catch(|| res.segmentation().map(|t| format!("{}-{};", t.begin(), t.end())).collect::<String>()));
+        add(format!("textselections:{}", id), catch(|| res.textselections().map(|t| format!("{}-{};", t.begin(), t.end())).collect::<String>()));
+        for (sb, se) in r.sels.iter().take(3) {
+            let off = Offset::simple(*sb, *se);
+            add(
+                format!("sel.find_text:{}:{}..{}", id, sb, se),
+                catch(|| match res.textselection(&off) {
+                    Ok(sel) => {
+                        let mut n: String = r.text[*sb..(*sb + 1).min(*se)].iter().collect();
+                        if n.is_empty() {
+                            n = "x".to_string(); // searching for the empty string is not a defined request
+                        }
+                        format!(
+                            "{}|{}|{}",
+                            sel.find_text(&n).map(|t| format!("{}-{};", t.begin(), t.end())).collect::<String>(),
+                            sel.split_text(" ").map(|t| format!("{}-{};", t.begin(), t.end())).collect::<String>(),
+                            sel.related_text(TextSelectionOperator::overlaps()).map(|t| format!("{}-{};", t.begin(), t.end())).collect::<String>()
+                        )
+                    }
+                    Err(e) => format!("ERR {}", e),
+                }),
+            );
+        }
+    }
+    out
+}
